@@ -580,15 +580,14 @@ impl HashSet {
         }
     }
 
-    // by contract (the probe loop is verified against this view in the HLL table unit): insert into the set view; needs an empty slot
+    // by contract: every clause here is implied by the contract VERIFIED on the real probe loop in unit hll_coupons (contracts/hll_coupons.rs)
     #[verifier::external_body]
     fn update(&mut self, coupon: u32)
-      requires old(self).container.wf_lg(), old(self).container.wf_capacity(), /*@C14.set.table_full*/ old(self).has_room(),
+      requires old(self).container.wf_lg(), old(self).container.wf_capacity(), old(self).container.len < usize::MAX, /*@C14.set.table_full*/ old(self).has_room(),
       ensures final(self).container.wf_lg(), final(self).container.wf_capacity(), final(self).container.lg_size == old(self).container.lg_size,
         final(self).container.len <= old(self).container.len + 1,
         coupon != 0 ==> final(self).container.cset() == old(self).container.cset().insert(coupon),
         coupon != 0 && old(self).container.wf_len() ==> final(self).container.wf_len(),
-        coupon != 0 ==> final(self).container.len == old(self).container.len + (if old(self).container.cset().contains(coupon) { 0int } else { 1int }),
         // COUPON_EMPTY itself: the first empty slot "receives" it and len is incremented although nothing is stored
         coupon == 0 ==> final(self).container.coupons@ == old(self).container.coupons@ && final(self).container.len == old(self).container.len + 1,
     { unimplemented!() }
